@@ -508,6 +508,12 @@ def build_case(w, prog, log, clock, scratch, sink_factory, hints=()):
             case.exception_handlers.insert(0, (hcls or w.cls(cls), fn))
     for h in range(n_on_exc):
         case.addOnException(lambda exc_info, _h=h: log.append(['onExc', _h, w.canon_exc(exc_info[1])]))
+    if ['clone'] in hints:
+        # realisation hint ['clone']: what is run is a copy made by clone_test_with_new_id (what testscenarios-style
+        # multiplication does with constructed tests), not the instance that was constructed; same id, so that nothing
+        # else changes
+        import testtools.testcase as ttc
+        case = ttc.clone_test_with_new_id(case, case.id())
     return case
 
 
@@ -868,6 +874,8 @@ def gen_input(rng, focus='all'):
             hints.append(['skip', k])
     if prog[6] and rng.random() < 0.4:
         hints.append(['late-handlers'])
+    if rng.random() < 0.15:
+        hints.append(['clone'])
     return [prog, runs, hints] if hints else [prog, runs]
 
 
@@ -905,7 +913,7 @@ def exc_kinds(prog):
 
 def features(inp, traces):
     prog, runs = inp[0], inp[1]
-    f = ['flavour=' + prog[-1], 'runs=%d' % runs] + (['hint:fixture-getDetails-raises'] if len(inp) > 2 and any(isinstance(h, int) for h in inp[2]) else []) + ['hint:skip-decorator-%d' % h[1] for h in (inp[2] if len(inp) > 2 else []) if isinstance(h, list) and h[0] == 'skip'] + ['hint:%s' % h[0] for h in (inp[2] if len(inp) > 2 else []) if isinstance(h, list) and h[0] in ('late-upcall', 'runner', 'empty-reason', 'object-reason', 'kwfn', 'late-handlers')] + ['hint:retval-%d' % h[2] for h in (inp[2] if len(inp) > 2 else []) if isinstance(h, list) and h[0] == 'retval'] + ['hint:scratch-%d' % h[1] for h in (inp[2] if len(inp) > 2 else []) if isinstance(h, list) and h[0] == 'scratch'] + ['hint:helper-raises' for h in (inp[2] if len(inp) > 2 else []) if isinstance(h, list) and h[0] == 'api'][:1]
+    f = ['flavour=' + prog[-1], 'runs=%d' % runs] + (['hint:fixture-getDetails-raises'] if len(inp) > 2 and any(isinstance(h, int) for h in inp[2]) else []) + ['hint:skip-decorator-%d' % h[1] for h in (inp[2] if len(inp) > 2 else []) if isinstance(h, list) and h[0] == 'skip'] + ['hint:%s' % h[0] for h in (inp[2] if len(inp) > 2 else []) if isinstance(h, list) and h[0] in ('late-upcall', 'runner', 'empty-reason', 'object-reason', 'kwfn', 'late-handlers', 'clone')] + ['hint:retval-%d' % h[2] for h in (inp[2] if len(inp) > 2 else []) if isinstance(h, list) and h[0] == 'retval'] + ['hint:scratch-%d' % h[1] for h in (inp[2] if len(inp) > 2 else []) if isinstance(h, list) and h[0] == 'scratch'] + ['hint:helper-raises' for h in (inp[2] if len(inp) > 2 else []) if isinstance(h, list) and h[0] == 'api'][:1]
     sts = list(all_stages(prog))
     faulty = [s for s in sts if s[3] != 'ret']
     f.append('stages=%s' % (len(sts) if len(sts) < 8 else '8+'))
